@@ -174,7 +174,7 @@ def parse_template(path):
             else:
                 if kw == "end":
                     out.append(("fn", cur)); cur = None; cur_dir = None
-                elif kw in ("props", "nocanary", "mutself", "macro", "block", "binops", "refarg"):
+                elif kw in ("props", "nocanary", "mutself", "macro", "block", "binops", "refarg", "addarg"):
                     cur.directives.append((kw, rest, [], i + 1))
                 else:
                     cur_dir = (kw, rest, [], i + 1)
@@ -539,7 +539,10 @@ def process_fn(repo, glob, fs, log):
         elif name in ("debug_assert", "assert"):
             cond = tok_text(src, toks, args[0][0], args[0][1])
             rep = f"vx_assert({cond})"
-            ed.add(start, end, rep, "E5", name); covered.append((start, end)); logrule("E5", start, src[start:end], rep)
+            # two edits around the condition, so that rewrites inside the condition (closure annotations, E9 subs) still apply
+            cs, ce = toks[args[0][0]].start, toks[args[0][1] - 1].end
+            ed.add(start, cs, "vx_assert(", "E5", name); ed.add(ce, end, ")", "E5", name)
+            covered.append((start, cs)); covered.append((ce, end)); logrule("E5", start, src[start:end], rep)
         elif name in ("debug_assert_eq", "assert_eq", "debug_assert_ne", "assert_ne"):
             a = tok_text(src, toks, args[0][0], args[0][1]); b = tok_text(src, toks, args[1][0], args[1][1])
             opx = "==" if name.endswith("_eq") else "!="
@@ -574,6 +577,21 @@ def process_fn(repo, glob, fs, log):
     for (kw, rest, payload, tl) in fs.directives:
         what = f"{fs.name} (template line {tl})"
         if kw in ("block", "nocanary", "props", "macro"):
+            continue
+        if kw == "addarg":
+            # E13: `//@addarg "self.sender.send" "&mut self.hist"`: every call of that path gets the extra (ghost state)
+            # argument appended; zero-width, so it composes with any other rewrite of the call
+            p_ = parse_quoted(rest)
+            qs_ = [x[1] for x in p_ if x[0] == "q"]
+            path = [t.text for t in rlex.lex(qs_[0])]
+            n_ = len(path)
+            for k in range(tlo, thi - n_):
+                if all(toks[k + d].text == path[d] for d in range(n_)) and toks[k + n_].kind == "open" and toks[k + n_].text == "(" \
+                        and not (k > tlo and toks[k - 1].kind == "punct" and toks[k - 1].text == "."):
+                    o = k + n_; c = br[o]
+                    at = toks[c].start
+                    extra = qs_[1] if c == o + 1 else ", " + qs_[1]
+                    ed.add(at, at, extra, "E13", "addarg"); logrule("E13", toks[k].start, src[toks[k].start:toks[c].end], f"... {extra})")
             continue
         if kw == "refarg":
             # E1: `impl Borrow<T>` parameters are `&T` in the Verus signature: every by-value argument of the named methods
